@@ -7,7 +7,7 @@ available()/pipe/any()/read() hand out, (b) the W_TX_PAYLOAD bytes on the SPI bu
 from vlib.harness.runner import Result, Part, exc_signature
 from vlib.ref import esb
 from vlib.sim.core import SimHorizon, US, MS
-from vlib.checks.linkutil import Link, unhex
+from vlib.checks.linkutil import Link, unhex, with_plus
 
 PROPERTY = "C01"
 LEVEL = "exploration"
@@ -139,7 +139,8 @@ def expected_payload(buf, dyn, L, lite_tx):
 def run_threaded(case, P):
     """lists longer than the 3-level RX FIFO: the peer's application drains in its own task while send() runs"""
     res = Result()
-    lk = Link(case.get("drv", "full"), case.get("peer", "full"), mcu=case.get("mcu"))
+    lk = Link(case.get("drv", "full"), case.get("peer", "full"), mcu=case.get("mcu"), plus=case.get("plus", True))
+    res.label("plus-chips" if case.get("plus", True) else "nonplus-chips")
     sim, T, R, tx, rx = lk.sim, lk.T, lk.R, lk.tx, lk.rx
     configure(case, lk)
     dyn, L, pipe = bool(case["dyn"]) or bool(case.get("ackmode")), case["plen"], case["pipe"]
@@ -209,7 +210,8 @@ def run_ack_roleswap(case, P):
     with one of them), then the roles are swapped and the former receiver sends an ordinary payload: the former
     transmitter must read exactly that payload - the unused ACK payloads are not data"""
     res = Result()
-    lk = Link(case.get("drv", "full"), case.get("peer", "full"), mcu=case.get("mcu"))
+    lk = Link(case.get("drv", "full"), case.get("peer", "full"), mcu=case.get("mcu"), plus=case.get("plus", True))
+    res.label("plus-chips" if case.get("plus", True) else "nonplus-chips")
     sim, T, R, tx, rx = lk.sim, lk.T, lk.R, lk.tx, lk.rx
     a = unhex(case["a0"])
     for r in (tx, rx):
@@ -264,7 +266,8 @@ def run_write_burst(case, P):
     fill the TX FIFO, then the application raises CE; every payload for which write() returned True must come out of the
     peer's read(), in order, and the first three writes into an empty FIFO must be accepted; a second burst follows"""
     res = Result()
-    lk = Link(case.get("drv", "full"), case.get("peer", "full"), mcu=case.get("mcu"))
+    lk = Link(case.get("drv", "full"), case.get("peer", "full"), mcu=case.get("mcu"), plus=case.get("plus", True))
+    res.label("plus-chips" if case.get("plus", True) else "nonplus-chips")
     sim, T, R, tx, rx = lk.sim, lk.T, lk.R, lk.tx, lk.rx
     a = unhex(case["a0"])
     dyn, L = case["dyn"], case["L"]
@@ -354,7 +357,8 @@ def run_case(case, prefix=None):
     if case.get("ack_roleswap"):
         return run_ack_roleswap(case, P)
     res = Result()
-    lk = Link(case.get("drv", "full"), case.get("peer", "full"), mcu=case.get("mcu"))
+    lk = Link(case.get("drv", "full"), case.get("peer", "full"), mcu=case.get("mcu"), plus=case.get("plus", True))
+    res.label("plus-chips" if case.get("plus", True) else "nonplus-chips")
     sim, T, R, tx, rx = lk.sim, lk.T, lk.R, lk.tx, lk.rx
     lite_t = lk.tx_kind == "lite"
     configure(case, lk)
@@ -719,9 +723,14 @@ def _burst_cases(drv="full", peer="full"):
     return gen
 
 
-def parts(tier):
+def _parts(tier):
     if tier == "quick":
         return [Part("ack-payload-role-swap", "enum", _ack_roleswap_cases(), exhaustive=True),
                 Part("write-only-bursts", "enum", _burst_cases(), exhaustive=True), Part("generated", "gen", strategy, n=3000), Part("long-lists-threaded-receiver", "gen", threaded_strategy, n=400)]
     return [Part("ack-payload-role-swap", "enum", _ack_roleswap_cases(), exhaustive=True), Part("write-only-bursts", "enum", _burst_cases(), exhaustive=True),
             Part("generated", "gen", strategy, n=150000), Part("long-lists-threaded-receiver", "gen", threaded_strategy, n=5000)]
+
+
+def parts(tier):
+    # the chip variant (plus / non-plus) is one more dimension of every case (linkutil.with_plus)
+    return [with_plus(p) for p in _parts(tier)]
